@@ -33,10 +33,11 @@ def generate(rng, tier, n):
     # parameter sweeps: games of one shape but different chance weights built, solved with the production samplers,
     # evaluated and dropped one after the other in one process: nothing computed for one game may be reused for the next
     for m_, k in (("sampled", 1), ("external", 1), ("sampled", 4), ("external", 3)):
-        ws = [0.1, 0.9, 0.2, 0.85, 0.3, 0.75]
+        # integer weights (1,9), (9,1), (2,8), ...: the normalised rows of consecutive games are permutations of each other
+        ws = [(1.0, 9.0), (9.0, 1.0), (2.0, 8.0), (8.0, 2.0), (3.0, 7.0), (7.0, 3.0)]
         trees = [blind_bets_tree(w, k)[0] for w in ws]
         t, st = blind_bets_tree(ws[0], k)
-        cb = CaseBuilder(cid, t, {"stats": st, "method": m_, "preset": "dcfr", "threads": 1, "stat_runs": []})
+        cb = CaseBuilder(cid, t, {"stats": st, "method": m_, "preset": "dcfr", "threads": 1, "stat_runs": [], "sweep_ws": ws})
         cb.meta["scope"] = set()
         cb.meta["sweep"] = {"trees": trees, "method": m_, "iters": 4000, "threads": 1, "params": "dcfr"}
         cb.meta["sweep_k"] = k
@@ -125,7 +126,8 @@ def blind_bets_tree(w, k):
 
         def p1(sign):
             return {"p": 1, "i": j, "a": [[1, p2(sign * 1.0, 0)], [2, p2(-sign * 1.0, 1)]]}
-        return {"c": 10 + j, "o": [[f2b(w), p1(1.0)], [f2b(1.0 - w), p1(-1.0)]]}
+        wa, wb = w if isinstance(w, tuple) else (w, 1.0 - w)
+        return {"c": 10 + j, "o": [[f2b(wa), p1(1.0)], [f2b(wb), p1(-1.0)]]}
     t = {"c": 1, "o": [[f2b(1.0), sub(j)] for j in range(k)]}
     return t, tree_stats(t)
 
@@ -209,8 +211,8 @@ def monitor(cb, impl):
         for j, r in enumerate(res or []):
             reg = b2f(r[3])
             if not (reg < env):
-                hits.append(("sweep of %d games (%s, T=%d) in one process: game %d (coin weight %r) is returned with true regret %r, not below D*N*sqrt(A)/sqrt(T) = %r"
-                             % (len(res), m["method"], T, j, [0.1, 0.9, 0.2, 0.85, 0.3, 0.75][j], reg, env), "sweep"))
+                hits.append(("sweep of %d games (%s, T=%d) in one process: game %d (coin weights %r) is returned with true regret %r, not below D*N*sqrt(A)/sqrt(T) = %r"
+                             % (len(res), m["method"], T, j, m["sweep_ws"][j], reg, env), "sweep"))
         if res is None:
             hits.append(("sweep not executed: %r" % impl["ops"], "sweep"))
         return hits
